@@ -99,6 +99,16 @@ def generate(rng, tier, seed):
         base = seed * 1000 + rng.randrange(1000)
         cases.append(hot_case("amb", scripts, None, ["random", base, 60 if thorough else 25]))
         cases.append(hot_case("amb", scripts, None, ["pct", 3, base, 30 if thorough else 10]))
+        # amb whose inputs ALL complete without emitting (the first completion wins: exactly one complete, no item)
+        cases.append(hot_case("amb", [[] for _ in range(rng.choice([2, 3]))], None, ["random", base, 30 if thorough else 12]))
+        # amb whose race is decided by an item of one input; later ANOTHER input fails: the loser's error is not let through, the
+        # winner's remaining items and its complete still arrive (ordered by virtual time: the sentence "amb lets exactly one input
+        # through" carries no "none fails" proviso)
+        w = rng.randrange(2)
+        thr = [["t%d" % w, ["next", w, 101], ["sleep", 4], ["next", w, 102], ["complete", w]], ["t%d" % (1 - w), ["sleep", 2], ["error", 1 - w, 5]]]
+        scn = ["conc", ["objects", ["subject", "subject"], ["subject", "subject"], ["pipe", ["op", "amb", [], ["hot", 0], ["hot", 1]]]], ["init", ["sub", 0, 0]],
+               ["threads"] + thr, ["fini"], ["sched", "random", base, 10 if thorough else 5]]
+        cases.append({"scn": scn, "kind": "amb", "scripts": [[101, 102], []] if w == 0 else [[], [101, 102]], "take": None, "sched": ["random", base, 10 if thorough else 5], "src": "hot", "loser_fails": True})
         k = rng.choice([2, 3])
         scripts = scripts_for(rng, k, 3)
         base = seed * 1000 + rng.randrange(1000)
@@ -161,7 +171,7 @@ def judge_user(case, ob, u):
     if terms and kinds[-1] == "n":
         bad.append("an item was delivered after the terminal: %s" % kinds)
     if "e" in kinds:
-        bad.append("an error was delivered although no input fails")
+        bad.append("the error of an input that had already lost amb's race was delivered" if case.get("loser_fails") else "an error was delivered although no input fails")
     items = [e[1] for e in evs if e[0] == "n"]
     log = " ".join("(" + " ".join(str(x) for x in flat(v)) + ")" if isinstance(v, list) else str(int(v)) for v in items)
     if take is not None and len(items) > take:
